@@ -9,7 +9,7 @@ use squitterator::{Planes, spawn_reader_thread};
 use std::io::Write;
 use std::net::{TcpListener, TcpStream};
 use std::os::fd::AsRawFd;
-use std::time::{Duration, Instant};
+use std::time::Duration;
 
 #[derive(Clone, Debug, PartialEq, Eq, Hash)]
 pub enum Step {
@@ -23,6 +23,8 @@ pub enum Step {
     AcceptPartialReset(Vec<u8>),
     /// accept, send junk bytes, close
     AcceptJunk(Vec<u8>),
+    /// accept, send these bytes, keep the connection healthy for this many (virtual) seconds, close
+    AcceptSendHold(Vec<u8>, i64),
 }
 
 impl Step {
@@ -33,6 +35,7 @@ impl Step {
             Step::AcceptSend(b) => format!("accept+frames({} bytes)+close", b.len()),
             Step::AcceptPartialReset(b) => format!("accept+partial({} bytes)+reset", b.len()),
             Step::AcceptJunk(b) => format!("accept+junk({} bytes)+close", b.len()),
+            Step::AcceptSendHold(b, t) => format!("accept+frames({} bytes)+healthy for {t} s+close", b.len()),
         }
     }
 }
@@ -103,8 +106,18 @@ impl Drop for PortClaim {
 }
 
 
+struct RealTimer(u64);
+impl RealTimer {
+    fn now() -> RealTimer {
+        RealTimer(shim::real_mono_ns())
+    }
+    fn elapsed(&self) -> Duration {
+        Duration::from_nanos(shim::real_mono_ns().saturating_sub(self.0))
+    }
+}
+
 fn wait_until(mut f: impl FnMut() -> bool) -> bool {
-    let t = Instant::now();
+    let t = RealTimer::now();
     while t.elapsed() < STEP_TIMEOUT {
         if f() {
             return true;
@@ -122,7 +135,7 @@ fn set_linger0(s: &TcpStream) {
 }
 
 fn bind(port: u16) -> Result<TcpListener, String> {
-    let t = Instant::now();
+    let t = RealTimer::now();
     loop {
         match TcpListener::bind(("127.0.0.1", port)) {
             Ok(l) => {
@@ -136,7 +149,7 @@ fn bind(port: u16) -> Result<TcpListener, String> {
 }
 
 fn accept(l: &TcpListener) -> Result<TcpStream, String> {
-    let t = Instant::now();
+    let t = RealTimer::now();
     loop {
         match l.accept() {
             Ok((s, _)) => {
@@ -226,6 +239,14 @@ pub fn run_script(opts: &[&str], script: &[Step], healthy: &[u8], expect_in_fina
                     Some(Step::AcceptSend(b)) | Some(Step::AcceptJunk(b)) => {
                         let _ = s.write_all(b);
                         let _ = s.flush();
+                        drop(s);
+                    }
+                    Some(Step::AcceptSendHold(b, secs)) => {
+                        let _ = s.write_all(b);
+                        let _ = s.flush();
+                        // let the reader consume the data, then let (virtual) time pass while connected
+                        shim::real_sleep_us(2000);
+                        shim::advance_monotonic(*secs, 0);
                         drop(s);
                     }
                     Some(Step::AcceptPartialReset(b)) => {
